@@ -3,7 +3,8 @@
  "name": "raw_image_inode_loop",
  "props": ["C19"],
  "level": "U/iter",
- "tier": "quick",
+ "tier": "wip",
+ "tier_after_hooks": "quick",
  "harness": "h_raw_inodes",
  "loop_contracts": true,
  "replace": ["mark_table_blocks", "output_qcow2_meta_data_blocks", "output_meta_data_blocks"],
